@@ -13,3 +13,8 @@ add("C03", "E1+E2",
     "Every tree up to the stated size through FlatEx::parse, DeepEx::parse, to_deepex (compiled and uncompiled), from_deepex and compositions, each compared with the reference tree (variables + symbolic value modulo AC); the conversion graph is iterated to its structural fixpoint (decides 'any number of times'); sorted/duplicate-free listings with must/may bounds; all strings up to length L that both parsers accept.",
     "As C01; only jointly accepted strings are compared.",
     "DESIGN.md §3 C03")
+add("C08", "E1",
+    "bounded-exhaustive enumeration of trees in which every subset of the alphabetic binary nodes is written in call form, at every position, symbolic data type, reference tree oracle",
+    "Every tree up to the stated size over a table with alphabetic binary operators on three priority levels (also all-equal and 97..99 priorities); for every subset of call-form nodes (plus one further rendering deviation for the small sizes) parse, parse_wo_compile and DeepEx::parse must accept and yield the reference tree. Nesting in first and second arguments, under unary operators, inside extra parentheses and as operands of infix operators all arise from the tree enumeration itself.",
+    "As C01.",
+    "DESIGN.md §3 C08")
